@@ -310,6 +310,13 @@ func (s *Stream) WriteSCTP(payload []byte, ppi PayloadProtocolIdentifier) (int, 
 		return 0, ErrStreamClosed
 	}
 
+	if len(payload) == 0 {
+		// An empty payload produces no DATA chunk. It must not consume a stream
+		// sequence number / message identifier either, or the peer waits forever
+		// for a message that never comes and every later ordered message stalls.
+		return 0, nil
+	}
+
 	// the send could fail if the association is blocked for writing (timeout), it will left a hole
 	// in the stream sequence number space, so we need to lock the write to avoid concurrent send and decrement
 	// the sequence number in case of failure
